@@ -3,8 +3,16 @@
 import json, os
 import vlib
 
-THEOREMS_C15 = []
-THEOREMS_C13 = []
+THEOREMS_C15 = ["Slock.C15V." + t for t in (
+    "set_refines", "unset_refines", "incr_refines", "append_refines", "shift_refines", "push_refines", "pop_refines",
+    "refused_unchanged", "wf_cell_len_prefix", "pipeline_partial",
+    "pipeline_not_sequential_counterexample", "incr_short_operand_props_counterexample",
+    "shift_beyond_length_counterexample", "pop_zero_length_element_counterexample")] + ["Slock.Value.consts_tie"]
+THEOREMS_C13 = ["Slock.C13V." + t for t in (
+    "no_panic_frame_header", "short_frame_panics", "no_panic_set_unset_unknown", "no_panic_append", "no_panic_push",
+    "no_panic_incr", "no_panic_shift", "shift_beyond_length_panics", "no_panic_value_offset",
+    "incr_short_operand_no_cell_panics", "shift_beyond_length_witness_panics", "property_flag_short_frame_panics",
+    "property_length_beyond_frame_panics", "pipeline_malformed_subframe_panics", "pop_malformed_array_panics")]
 THEOREMS = THEOREMS_C15 + THEOREMS_C13
 FINISH = {"level": "proof", "assumptions": [
     "a Go slice is modelled as (len bytes, bytes up to cap); top-level request frames have cap = len (Stream.ReadBytesFrame uses make)",
